@@ -423,4 +423,217 @@ theorem flow_rename {ρ : String → String} (hρ : ∀ x y, ρ x = ρ y → x =
   funext k c
   exact flowF_rename hρ scopes _ k c
 
+
+/-! alias renaming, per scope: `ρs k` renames scope `k` and is injective on the names that scope mentions -/
+
+def InjOn (ρ : String → String) (l : List String) : Prop := ∀ x ∈ l, ∀ y ∈ l, ρ x = ρ y → x = y
+
+theorem lookupSrc_rename_on {ρ : String → String} (t : String) (srcs : List (String × Src))
+    (h : ∀ a ∈ srcs.map (·.1), ρ a = ρ t → a = t) :
+    lookupSrc (ρ t) (srcs.map fun as => (ρ as.1, as.2.rename ρ)) = (lookupSrc t srcs).map (Src.rename ρ) := by
+  induction srcs with
+  | nil => rfl
+  | cons x xs ih =>
+    obtain ⟨a, s⟩ := x
+    simp only [List.map, lookupSrc]
+    have ih' := ih (fun b hb => h b (List.mem_cons_of_mem _ hb))
+    by_cases hat : a = t
+    · simp [hat]
+    · have : ρ a ≠ ρ t := fun e => hat (h a List.mem_cons_self e)
+      simp [hat, this, ih']
+
+theorem flowCol_rename_on {ρ : String → String} (rec : Nat → Col → List Leaf) (k : Nat)
+    (srcs : List (String × Src)) (tc : String × String) (h : ∀ a ∈ srcs.map (·.1), ρ a = ρ tc.1 → a = tc.1) :
+    flowCol rec k (srcs.map fun as => (ρ as.1, as.2.rename ρ)) (ρ tc.1, tc.2) = flowCol rec k srcs tc := by
+  unfold flowCol
+  simp only [lookupSrc_rename_on tc.1 srcs h]
+  cases lookupSrc tc.1 srcs with
+  | none => rfl
+  | some s => cases s <;> rfl
+
+theorem flatMap_congr_mem {α β : Type} {f g : α → List β} (l : List α) (h : ∀ x ∈ l, f x = g x) :
+    l.flatMap f = l.flatMap g := by
+  induction l with
+  | nil => rfl
+  | cons x xs ih =>
+    simp only [List.flatMap_cons]
+    rw [h x List.mem_cons_self, ih (fun y hy => h y (List.mem_cons_of_mem _ hy))]
+
+theorem findProj_mem {n : String} {projs : List Proj} {p : Proj} (h : findProj n projs = some p) : p ∈ projs := by
+  induction projs with
+  | nil => simp [findProj] at h
+  | cons q qs ih =>
+    simp only [findProj] at h
+    split at h
+    · cases h; exact List.mem_cons_self
+    · exact List.mem_cons_of_mem _ (ih h)
+
+theorem pickProj_mem {projs : List Proj} {fb p : Proj} {c : Col} (h : pickProj projs fb c = some p) :
+    p ∈ projs ∨ p = fb := by
+  cases c with
+  | idx i =>
+    simp only [pickProj] at h
+    exact Or.inl (List.mem_of_getElem? h)
+  | name n =>
+    simp only [pickProj, Option.some.injEq] at h
+    cases hf : findProj n projs with
+    | none => rw [hf] at h; exact Or.inr h.symm
+    | some q => rw [hf] at h; simp at h; subst h; exact Or.inl (findProj_mem hf)
+
+theorem flowStep_rename_on {ρ : String → String} (rec : Nat → Col → List Leaf) (k : Nat) (sc : LScope) (c : Col)
+    (hρ : InjOn ρ sc.names) : flowStep rec k (sc.rename ρ) c = flowStep rec k sc c := by
+  cases sc with
+  | select projs fb srcs =>
+    simp only [LScope.rename, flowStep, pickProj_rename]
+    cases hp : pickProj projs fb c with
+    | none => rfl
+    | some p =>
+      simp only [Option.map, Proj.rename, List.flatMap_map]
+      congr 1
+      apply flatMap_congr_mem
+      intro tc htc
+      apply flowCol_rename_on
+      intro a ha e
+      have hq : tc.1 ∈ (LScope.select projs fb srcs).names := by
+        simp only [LScope.names, List.mem_append, List.mem_flatMap, List.mem_map]
+        rcases pickProj_mem hp with hm | rfl
+        · exact Or.inl (Or.inr ⟨p, hm, tc, htc, rfl⟩)
+        · exact Or.inr ⟨tc, htc, rfl⟩
+      have ha' : a ∈ (LScope.select projs fb srcs).names := by
+        simp only [LScope.names, List.mem_append]
+        exact Or.inl (Or.inl ha)
+      exact hρ a ha' tc.1 hq e
+  | union op l r names => rfl
+  | wrap i => rfl
+
+theorem getElem?_renameScopes (ρs : Nat → String → String) (scopes : List LScope) (k : Nat) :
+    (renameScopes ρs scopes)[k]? = scopes[k]?.map (LScope.rename (ρs k)) := by
+  simp [renameScopes, List.getElem?_mapIdx]
+
+theorem flowF_renameScopes (ρs : Nat → String → String) (scopes : List LScope)
+    (hρ : ∀ k sc, scopes[k]? = some sc → InjOn (ρs k) sc.names) :
+    ∀ f k c, flowF f ((renameScopes ρs scopes).map LScope.erase) k c = flowF f (scopes.map LScope.erase) k c := by
+  intro f
+  induction f with
+  | zero => intro k c; rfl
+  | succ f ih =>
+    intro k c
+    simp only [flowF, List.getElem?_map, getElem?_renameScopes]
+    cases hsc : scopes[k]? with
+    | none => rfl
+    | some sc =>
+      simp only [Option.map]
+      rw [flowStep_erase, flowStep_erase, flowStep_rename_on _ _ _ _ (hρ k sc hsc)]
+      exact flowStep_congr (fun i c _ => ih i c) _ _
+
+theorem flow_renameScopes (ρs : Nat → String → String) (scopes : List LScope)
+    (hρ : ∀ k sc, scopes[k]? = some sc → InjOn (ρs k) sc.names) :
+    flow (renameScopes ρs scopes) = flow scopes := by
+  funext k c
+  exact flowF_renameScopes ρs scopes hρ _ k c
+
+theorem renameScopes_const (ρ : String → String) (scopes : List LScope) :
+    renameScopes (fun _ => ρ) scopes = scopes.map (LScope.rename ρ) := by
+  apply List.ext_getElem?
+  intro k
+  rw [getElem?_renameScopes, List.getElem?_map]
+
+
+/-! ### `expand` vs inlining by hand: the same scopes up to the `source:` tags (simulation over the instantiation) -/
+
+/-- two output lists that agree up to tags -/
+def TagRel (o1 o2 : List LScope) : Prop := o1.map LScope.eraseTag = o2.map LScope.eraseTag
+
+def RecSim (r1 r2 : RecDef) : Prop :=
+  ∀ d o1 o2, TagRel o1 o2 → TagRel (r1 d o1).1 (r2 d o2).1 ∧ (r1 d o1).2 = (r2 d o2).2
+
+theorem tagRel_length {o1 o2 : List LScope} (h : TagRel o1 o2) : o1.length = o2.length := by
+  have := congrArg List.length h
+  simpa using this
+
+def eraseTagPair (as : String × Src) : String × Src := (as.1, as.2.eraseTag)
+
+theorem expSrc_sim {mk1 mk2 : String → Option String} {r1 r2 : RecDef} (hr : RecSim r1 r2) (defs : List SrcDef)
+    (m : List Nat) (as : String × Src) (o1 o2 : List LScope) (h : TagRel o1 o2) :
+    eraseTagPair (expSrc mk1 r1 defs m as o1).1 = eraseTagPair (expSrc mk2 r2 defs m as o2).1 ∧
+      TagRel (expSrc mk1 r1 defs m as o1).2 (expSrc mk2 r2 defs m as o2).2 := by
+  obtain ⟨a, s⟩ := as
+  cases s with
+  | scope i c r t => exact ⟨rfl, h⟩
+  | table n =>
+    simp only [expSrc]
+    cases findDef n defs with
+    | none => exact ⟨rfl, h⟩
+    | some d =>
+      obtain ⟨h1, h2⟩ := hr d o1 o2 h
+      refine ⟨?_, h1⟩
+      simp only [eraseTagPair, Src.eraseTag, h2]
+
+theorem expSrcs_sim {mk1 mk2 : String → Option String} {r1 r2 : RecDef} (hr : RecSim r1 r2) (defs : List SrcDef)
+    (m : List Nat) (srcs : List (String × Src)) :
+    ∀ o1 o2, TagRel o1 o2 →
+      (expSrcs mk1 r1 defs m srcs o1).1.map eraseTagPair = (expSrcs mk2 r2 defs m srcs o2).1.map eraseTagPair ∧
+        TagRel (expSrcs mk1 r1 defs m srcs o1).2 (expSrcs mk2 r2 defs m srcs o2).2 := by
+  induction srcs with
+  | nil => intro o1 o2 h; exact ⟨rfl, h⟩
+  | cons as rest ih =>
+    intro o1 o2 h
+    obtain ⟨h1, h2⟩ := expSrc_sim (mk1 := mk1) (mk2 := mk2) hr defs m as o1 o2 h
+    obtain ⟨h3, h4⟩ := ih _ _ h2
+    simp only [expSrcs, List.map_cons]
+    exact ⟨by rw [h1, h3], h4⟩
+
+theorem expScope_sim {mk1 mk2 : String → Option String} {r1 r2 : RecDef} (hr : RecSim r1 r2) (defs : List SrcDef)
+    (m : List Nat) (sc : LScope) (o1 o2 : List LScope) (h : TagRel o1 o2) :
+    (expScope mk1 r1 defs m sc o1).1.eraseTag = (expScope mk2 r2 defs m sc o2).1.eraseTag ∧
+      TagRel (expScope mk1 r1 defs m sc o1).2 (expScope mk2 r2 defs m sc o2).2 := by
+  cases sc with
+  | select projs fb srcs =>
+    obtain ⟨h1, h2⟩ := expSrcs_sim (mk1 := mk1) (mk2 := mk2) hr defs m srcs o1 o2 h
+    refine ⟨?_, h2⟩
+    simp only [expScope, LScope.eraseTag]
+    congr 1
+  | union op l r names => exact ⟨rfl, h⟩
+  | wrap i => exact ⟨rfl, h⟩
+
+theorem expFrag_sim {mk1 mk2 : String → Option String} {r1 r2 : RecDef} (hr : RecSim r1 r2) (defs : List SrcDef)
+    (frag : List LScope) :
+    ∀ m o1 o2, TagRel o1 o2 →
+      TagRel (expFrag mk1 r1 defs frag m o1).1 (expFrag mk2 r2 defs frag m o2).1 ∧
+        (expFrag mk1 r1 defs frag m o1).2 = (expFrag mk2 r2 defs frag m o2).2 := by
+  induction frag with
+  | nil =>
+    intro m o1 o2 h
+    simp only [expFrag]
+    exact ⟨h, by rw [tagRel_length h]⟩
+  | cons sc rest ih =>
+    intro m o1 o2 h
+    obtain ⟨h1, h2⟩ := expScope_sim (mk1 := mk1) (mk2 := mk2) hr defs m sc o1 o2 h
+    simp only [expFrag]
+    rw [tagRel_length h2]
+    apply ih
+    unfold TagRel at h2 ⊢
+    simp only [List.map_append, List.map_cons, List.map_nil, h1, h2]
+
+theorem expandF_sim (mk1 mk2 : String → Option String) (defs : List SrcDef) :
+    ∀ f, RecSim (expandF mk1 defs f) (expandF mk2 defs f) := by
+  intro f
+  induction f with
+  | zero =>
+    intro d o1 o2 h
+    simp only [expandF]
+    refine ⟨?_, tagRel_length h⟩
+    unfold TagRel at h ⊢
+    simp only [List.map_append, h]
+  | succ f ih =>
+    intro d o1 o2 h
+    simp only [expandF]
+    exact expFrag_sim ih defs d.scopes [] o1 o2 h
+
+/-- `expand` and hand-inlining produce the same scopes up to tags, and the same root -/
+theorem expandQ_sim (mk1 mk2 : String → Option String) (defs : List SrcDef) (fuel : Nat) (main : List LScope) :
+    (expandQ mk1 defs fuel main).1.map LScope.eraseTag = (expandQ mk2 defs fuel main).1.map LScope.eraseTag ∧
+      (expandQ mk1 defs fuel main).2 = (expandQ mk2 defs fuel main).2 :=
+  expFrag_sim (expandF_sim mk1 mk2 defs fuel) defs main [] [] [] rfl
+
 end SqlglotModel.Lineage
